@@ -351,11 +351,30 @@ class Analyzer:
                 continue
             base = fn.canon({'l': a['pl']['l'], 'p': a['pl']['p'] + ['deref'], 'ty': ''})
             bs = place_str(base)
+            written = self._callee_written_fields(t)
             for at in atoms:
                 body = at.split(':', 1)[1] if ':' in at else at
                 if bs in body:
+                    if written is not None:
+                        # a callee of this crate: it can only change the fields it (transitively) stores to
+                        rest = body.replace(bs, '', 1)
+                        names = set(re.findall(r'\.([A-Za-z_]\w*)', rest))
+                        if not (names & written) and (names or at.startswith('len:')):
+                            continue
                     return True
         return False
+
+    def _callee_written_fields(self, t):
+        """Names of struct fields a crate-local callee may store to (transitively), or None for foreign callees."""
+        n = callee_name(t)
+        if not n or n not in self.F.fns:
+            return None
+        cache = self.S.__dict__.setdefault('_cwf', {})
+        if n not in cache:
+            from .effects import transitive_writes
+            tw = transitive_writes(self.F, [n])
+            cache[n] = set(tw.keys())
+        return cache[n]
 
     def write_points(self, atoms):
         """[(block, idx)] (idx = statement index, or None for the terminator) that may redefine an atom."""
